@@ -124,7 +124,8 @@ class ProxiedRegion(BaseClientRegion):
         self._recalc_caps()
 
     def resolve_cap(self, url: str, consume=True) -> Optional[Tuple[str, str, CapType]]:
-        for cap_url in self._caps_url_lookup.keys():
+        # Longest first, of several granted URLs that the request extends the most specific one was meant
+        for cap_url in sorted(self._caps_url_lookup.keys(), key=len, reverse=True):
             if url.startswith(cap_url):
                 cap_type, name = self._caps_url_lookup[cap_url]
                 if cap_type == CapType.TEMPORARY and consume:
